@@ -185,3 +185,16 @@ func (p *Playback) Get(start time.Time, dur time.Duration, format string) (int, 
 	}
 	return p.do("http://unix/get?" + v.Encode())
 }
+
+// GetRaw calls /get with literal start and duration parameters (for values that time.Time /
+// float seconds formatting cannot express, e.g. the largest duration the parser accepts).
+func (p *Playback) GetRaw(start, duration, format string) (int, []byte, error) {
+	v := url.Values{}
+	v.Set("path", p.PathName)
+	v.Set("start", start)
+	v.Set("duration", duration)
+	if format != "" {
+		v.Set("format", format)
+	}
+	return p.do("http://unix/get?" + v.Encode())
+}
